@@ -6,7 +6,7 @@ NOTES = ("Model-based verification with explicit TLA+ specifications (spec/*.tla
          "recorded from rdflib against the trace spec (tier T) that re-uses tier P's operators. See DESIGN.md.")
 
 ENGINES = [
-    {"name": "store", "path": "spec/TripleStore.tla spec/MemoryStore.tla spec/TraceStore.tla harness/rvf/store_replay.py",
+    {"name": "store", "path": "spec/TripleStore.tla spec/MemoryStore.tla spec/TraceStore.tla spec/GraphOps.tla spec/GraphAlgebra.tla spec/TraceGraphAlgebra.tla harness/rvf/store_replay.py harness/rvf/galg_replay.py",
      "serves_properties": ["C01", "C02", "C13"], "kind_free_text": "TLA+ state machine of the dataset + transcription of Memory store; TLC trace validation"},
 ]
 
@@ -21,7 +21,8 @@ CHECKS = {
         "level": ("TLC exhaustively checks the dataset state machine and the transcription of the Memory store (index coherence, every read path = abstract set, "
                   "no internal lookup can fail, generator safety) on small universes; every TLC-exported history up to the depth bound, every tier-I counterexample "
                   "schedule and seeded long histories are replayed on rdflib (both in-memory stores, shared/own store, 5 vocabularies incl. falsy terms) and each recorded "
-                  "trace is validated by TLC against the property spec with all 8 pattern shapes, len, iteration, membership and set operators compared at the observation points."),
+                  "trace is validated by TLC against the property spec with all 8 pattern shapes, len, iteration, membership and set operators compared at the observation points. A second step replays histories of the Graph-level API "
+                  "(set, += -= + - * ^ incl. a graph as its own operand and graphs sharing an identifier, BatchAddGraph, value, projections, triples_choices, cbd, connected) on two graphs in 8 store configurations and validates them against GraphOps.tla."),
         "note": _NOTE_COMMON + " Iterator clause checked on the default store only, interleavings of calls in one thread. The thorough tier also runs the repository's own tests (15 test directories) with the "
                 "Memory-store hooks on (rdflib/_verif.py, guard RDFLIB_VERIF) and lets TLC validate every store instance's recorded add / remove history against TraceMemory.tla (len(store) and len(store, context) after every event).",
     },
@@ -32,7 +33,8 @@ CHECKS.update({
             "level": ("TLC checks isolation, remove-everywhere, remove_graph and purity action properties on the dataset state machine and refinement of the Memory-store transcription with three contexts; "
                       "every TLC-exported dataset history (default / IRI-named / bnode-named graphs; add, addN, remove, remove-everywhere, graph, remove_graph) up to the depth bound plus seeded long histories is replayed "
                       "through Dataset (default_union on/off) and ConjunctiveGraph, via the dataset API and via independent views, graph given as object or identifier; TLC validates quads(), graphs(), every view under all pattern shapes, "
-                      "quad membership and context-restricted queries for existing, empty and unknown graphs against the property spec."),
+                      "quad membership, quad patterns naming a graph, the graphs of a triple and context-restricted queries for existing, empty and unknown graphs against the property spec. A second step replays Graph-level API histories "
+                      "(+= -= and the set operators between views of one dataset, with a further graph in the store that must stay untouched) and validates them against GraphOps.tla."),
             "note": _NOTE_COMMON},
     "C13": {"engine": "store", "technique": _T,
             "level": ("Every read-only call of a 60-kind read alphabet (serialize x 20 format/target combinations, 21 SPARQL queries incl. FROM/FROM NAMED/GRAPH/paths/aggregates/DESCRIBE, comparison and canonicalisation, iteration, slicing, "
@@ -117,11 +119,11 @@ CHECKS["C09"] = {"engine": "xsd", "technique": "TLA+ transcription of the XSD le
               "the value against Canon / fields, validity and same value of the normalised form, idempotence, documented datatype and round trip of Python values, and eq against term equality, Python equality and XSD equality.")}
 ENGINES += [{"name": "xsd", "path": "spec/XsdLexical.tla spec/MCXsdLexical.tla spec/TraceXsd.tla harness/rvf/xsd_replay.py", "serves_properties": ["C09"], "kind_free_text": "XSD lexical spaces in TLA+ as the oracle for Literal construction"}]
 CHECKS["C05"] = {"engine": "spelling", "technique": "TLA+ writer machine for the Turtle family (TurtleSpelling.tla: token-by-token author choices with the meaning G of the document maintained by the grammar's semantic actions; invariants model-checked; behaviours exported by TLC in simulation mode) + strict N-Triples / N-Quads recogniser-decoder in TLA+ (NTriplesGrammar.tla) + TLC validation of what rdflib parsed / wrote (TraceSpell.tla)",
-    "note": _NOTE_COMMON + " White space, comments, escape style, keyword case and the concrete strings are seeded choices of the Python renderer, not enumerated by TLC. RDF/XML and JSON-LD spellings are 28 hand-enumerated documents, not a writer machine. Blank nodes per document are capped at 6 (n! oracle).",
+    "note": _NOTE_COMMON + " White space, comments, escape style, keyword case and the concrete strings are seeded choices of the Python renderer, not enumerated by TLC. RDF/XML (RdfXmlSpelling.tla) and JSON-LD (JsonLdSpelling.tla) have writer machines of their own, explored by simulation only (branching factors near 1000), plus 37 hand-enumerated documents for what the machines do not spell. Blank nodes per document are capped at 6 (n! oracle).",
     "level": ("~500 (thorough: thousands of) behaviours of the writer machine per syntax (N-Triples, N-Quads, Turtle, TriG: directives re-bound midway, absolute / base-relative / prefixed IRIs legal in the environment in force, 'a', four quotings, shorthand literals, ';' ',' [] () nesting, TriG blocks, N-Quads labels), "
               "each rendered twice with random layout and escapes over hostile strings and local names, parsed through 7 routes (str, bytes, BytesIO, StringIO, path, pathlib.Path, open file) and validated by TLC against the machine's G up to blank-node bijection; 16 RDF/XML and 12 JSON-LD spellings of fixed graphs likewise; "
               "rdflib's N-Triples / N-Quads output for ~300 C03 shapes decoded line by line by the strict TLA+ grammar and compared with the source; XML / JSON outputs read by expat / json.")}
-ENGINES += [{"name": "spelling", "path": "spec/TurtleSpelling.tla spec/NTriplesGrammar.tla spec/TraceSpell.tla harness/rvf/spell_replay.py harness/rvf/spell_docs.py", "serves_properties": ["C05"], "kind_free_text": "writer state machine + strict grammar in TLA+; rdflib parses what the machine writes"}]
+ENGINES += [{"name": "spelling", "path": "spec/TurtleSpelling.tla spec/TurtleSpellingTargets.tla spec/RdfXmlSpelling.tla spec/JsonLdSpelling.tla spec/NTriplesGrammar.tla spec/TraceSpell.tla harness/rvf/spell_replay.py harness/rvf/xml_spell.py harness/rvf/jsonld_spell.py harness/rvf/spell_docs.py", "serves_properties": ["C05"], "kind_free_text": "writer state machine + strict grammar in TLA+; rdflib parses what the machine writes"}]
 CHECKS["C20"] = {"engine": "sparqlstore", "technique": "TLA+ state machine of endpoint + pending-update queue (SparqlStore.tla: one action per store call, autocommit / dirty-read switches, ghost local dataset; invariants and action properties model-checked, reversed-commit variant refuted) + TLC-exported histories replayed on SPARQLUpdateStore against a loopback endpoint + TLC trace validation (TraceSparqlStore.tla)",
     "note": _NOTE_COMMON + " The endpoint is rdflib's own engine behind an in-process SPARQL Protocol shim (urlopen patched in sparqlconnector), with a default graph that is not named urn:x-rdflib:default; no third-party endpoint, no real sockets. Blank nodes are not sent (unsupported by design).",
     "level": ("TLC checks Inv_Mirror (endpoint + queue = local dataset), visibility only at commit / flushing read / autocommit write, rollback discards exactly the queue, reads see all writes unless dirty, for the three switch settings (57 260 states each), and refutes a reversed-order commit; "
